@@ -23,7 +23,7 @@ CONSTANTS
 %(inv)s
 CHECK_DEADLOCK FALSE
 """
-INV = ("INVARIANTS TypeOK TwoOutcomes ResultIsEffective ErrorIsJustified BadIsRejected SingleSource PairPrecedence HistoryIndependent NeighbourIndependent AcceptedIsRunnable\n"
+INV = ("INVARIANTS TypeOK TwoOutcomes ResultIsEffective ErrorIsJustified BadIsRejected SingleSource PairPrecedence HistoryIndependent NeighbourIndependent AcceptedIsRunnable NeverPartial\n"
        "PROPERTY Terminates")
 HINV = "INVARIANTS TypeOK TwoOutcomes ResultIsEffective ErrorIsJustified BadIsRejected HistoryIndependent"
 FILES = ["config/c15_test.go", "config/c15_history_test.go", "config/c15_run_test.go"]
@@ -102,6 +102,9 @@ def run(ctx):
             % (s["options"], s["all_options"], s["ran"], s["loads"], s["procs"], s["robust"], s["failed"], r.wall))
     ctx.log("degenerate values: %d replays; histories: %d options x %d histories = %d Loads in one process (%d references from fresh processes)"
             % (s.get("degenerate_replays", 0), s.get("hist_options", 0), nh, s.get("hist_steps", 0), s.get("fresh_refs", 0)))
+    ctx.log("file fetched from a URL (complete / truncated / reset / 404 / 500): %d replays" % s.get("fetch_replays", 0))
+    if s.get("fetch_replays", 0) < 500:
+        ctx.inconclusive("only %s replays with the file fetched from a URL" % s.get("fetch_replays"))
     ctx.log("two options at a time: %d replays with a well-/ill-formed neighbour value before or after the option" % s.get("neighbour_replays", 0))
     if s.get("degenerate_replays", 0) < 1000 or s.get("hist_steps", 0) < 1000 or s.get("neighbour_replays", 0) < 1000:
         ctx.inconclusive("degenerate / history part incomplete: %s" % json.dumps({k: s.get(k) for k in ("degenerate_replays", "hist_steps")}))
@@ -145,7 +148,7 @@ def run(ctx):
             c = json.loads(line)
             if "cmd" not in c:
                 continue
-            if c.get("nsrc", "-") != "-":
+            if c.get("nsrc", "-") != "-" or c.get("fetch", "path") != "path":
                 continue
             if c["cmd"] == "v1" and c["fenv"] == "v2" and c["result"] == "cfg" and not c["junk"] and c["fstate"] == "absent" and c["env"] == "-":
                 st = c
